@@ -131,6 +131,10 @@ var syntaxLookalikes = []string{
 	`range:-Inf..0`, `a,+Inf`, `k[NaN.0`, `:null`, `,true]`, `[1,2]`, `:NaN.0,`, `{"a":+Inf}`, `<b>&amp;</b>`, `%d%s`, `${HOME}`, `/* c */`,
 	// a literal backslash followed by what looks like the rest of an escape (the serialiser writes \\u0041, which must come back as six characters)
 	`\u0041`, `\u00e9x`, `\ud83d\ude00`, `\n\t`, `\\u0041`, `\x41`, `\"`, `a\`,
+	// characters a tolerant reader might take for delimiters or drop: typographic quotes, BOM / zero-width characters
+	"she said \u201chi\u201d", "\u201d", "\u201c", "\u2018x\u2019", "\u00abq\u00bb", "a\ufeffb", "\ufeff", "a\u200bb", "\u2060",
+	// keys that differ only in the zero padding of a digit run
+	"1", "01", "row7", "row007", "a.0", "a.00",
 }
 
 // GenString draws a valid-UTF-8 string from the class tables.
